@@ -564,10 +564,17 @@ class AccessMixin:
                 if ct is not None:
                     return ct
             return Builtin(v.name + "." + attr)
+        if isinstance(v, ClassRef) and attr == "__new__":
+            return lambda interp, args, kwargs: interp.new_object(args[0].name if isinstance(args[0], ClassRef) else v.name)
         if isinstance(v, ClassRef):
             return self.engine.class_attr(self, v, attr)
         if v is None or (isinstance(v, SV) and v.ty.name == "Opt"):
             v = ctx.unopt(v, "AttributeError", f"None.{attr}")
+        if isinstance(v, SV) and v.ty.name == "Ref" and attr == "__class__":
+            return ClassRef(v.ty.args[0].name)
+        if isinstance(v, SV) and v.ty.name == "Ref" and attr == "__dict__":
+            from .vals import DictView
+            return DictView(v)
         if isinstance(v, SV) and v.ty.name == "Ref":
             r = self.field_read(v, attr)
             if r is not None:
@@ -578,7 +585,7 @@ class AccessMixin:
             if cc and attr in cc:
                 return self.engine.pyvalue(cc[attr])      # class-level constant read through the instance
             return BoundMethod(v, attr)
-        if is_str(v) or isinstance(v, (Cell, tuple)):
+        if is_str(v) or isinstance(v, (Cell, tuple)) or type(v).__name__ == "DictView":
             return BoundMethod(v, attr)
         if isinstance(v, SV) and v.ty.name in ("List", "Map", "Set"):
             return BoundMethod(ctx.wrap(v.t, v.ty), attr)
